@@ -236,7 +236,7 @@ def replay_hist(job):
             last = rp.tids.real(sd.norm(beh[-1]['state']['hist'])[-1]['tid'])
             live = db.open(tmx)
             hist_c = db.open(tmx, before=last)
-            signal.setitimer(signal.ITIMER_REAL, 10)
+            signal.setitimer(signal.ITIMER_REAL, 30)
             try:
                 try:
                     live.get(p64(0)).v = ['changed-live']
@@ -263,7 +263,7 @@ def replay_hist(job):
             def _blocked(signum, frame):
                 raise TimeoutError()
             old = signal.signal(signal.SIGALRM, _blocked)
-            signal.setitimer(signal.ITIMER_REAL, 5)
+            signal.setitimer(signal.ITIMER_REAL, 30)
             try:
                 t = rp._txn()
                 rp.st.tpc_begin(t)
